@@ -49,6 +49,34 @@ def r1_mirror(ctx):
     return w, b
 
 
+def material_source(ctx):
+    """(kind, name, values): the per-piece material values, from the constant table MATERIAL_VALUES or, when the table was turned into a
+    function Piece -> i16 of the tables module, from that function tabulated on the six pieces"""
+    facts = ctx.facts
+    mv = arr(facts.consts.get(ET + 'MATERIAL_VALUES'))
+    if mv is not None:
+        return 'const', ET + 'MATERIAL_VALUES', list(mv)
+    cands = [n for n, f in facts.fns.items() if n.startswith(ET) and f.kind != 'Closure'
+             and (f.raw.get('sig') or '').replace(' ', '').endswith('fn(chess::board::piece::Piece)->i16')]
+    if len(cands) != 1:
+        return None, None, None
+    vals = []
+    for pn in PIECES:
+        outs = [o for o in Engine(facts, fold_only=()).run(cands[0], args=[piece(pn)]) if o.kind != 'abort']
+        if len(outs) != 1 or outs[0].kind != 'return' or not is_const(outs[0].value):
+            return None, None, None
+        vals.append(outs[0].value[1])
+    ctx.touch(cands[0])
+    return 'fn', cands[0], vals
+
+
+def is_material_leaf(t, msrc):
+    kind, mname, _ = msrc
+    if kind == 'const':
+        return t[0] == 'named' and t[1] == mname
+    return kind == 'fn' and t[0] == 'call' and t[1] == mname
+
+
 def r2_colour_blind(ctx):
     rule = 'C18.R2-colour-blind'
     facts = ctx.facts
@@ -71,7 +99,8 @@ def r2_colour_blind(ctx):
         return
     CP = ('p', colp)
     pieces_fn = BOARD + '::pieces'
-    eng = Engine(facts, readonly={pieces_fn, EV + 'is_endgame', 'chess::board::piece_set::PieceSet::locate'}, max_paths=20000)
+    msrc = material_source(ctx)
+    eng = Engine(facts, readonly={pieces_fn, EV + 'is_endgame', 'chess::board::piece_set::PieceSet::locate'} | ({msrc[1]} if msrc[0] == 'fn' else set()), max_paths=20000)
     outs = eng.run(name)
     ctx.touch(name)
     cd = {facts.variant_discr(COLOR, c): c for c in ('White', 'Black')}
@@ -120,9 +149,9 @@ def r2_colour_blind(ctx):
         if o.kind != 'backedge' or not o.locals:
             continue
         for l, t in o.locals.items():
-            if isinstance(t, tuple) and t[0] == 'bin' and any(s_[0] == 'named' and s_[1].endswith('MATERIAL_VALUES') for s_ in subterms(t)):
+            if isinstance(t, tuple) and t[0] == 'bin' and any(is_material_leaf(s_, msrc) for s_ in subterms(t)):
                 for x in add_leaves(t):
-                    names = sorted({s_[1].rsplit('::', 1)[-1] for s_ in subterms(x) if s_[0] == 'named'})
+                    names = sorted({('MATERIAL_VALUES' if is_material_leaf(s_, msrc) else s_[1].rsplit('::', 1)[-1]) for s_ in subterms(x) if s_[0] == 'named' or is_material_leaf(s_, msrc)})
                     if names:
                         shapes.add(tuple(names))
     ctx.ob(rule, name, 'summands are MATERIAL_VALUES[piece] and BONUS_TABLES[piece][endgame][index]',
@@ -136,7 +165,7 @@ def r2_colour_blind(ctx):
             continue
         col = cd.get(pin(dict(o.conds).get(('discr', CP))))
         for l, t in o.locals.items():
-            if any(s[0] == 'named' and s[1].endswith('MATERIAL_VALUES') for s in subterms(t)) and t[0] == 'bin':
+            if any(is_material_leaf(s, msrc) for s in subterms(t)) and t[0] == 'bin':
                 s = show(t)
                 s = s.replace('SQUARE_TO_WHITE_BONUS_INDEX', 'IDX').replace('SQUARE_TO_BLACK_BONUS_INDEX', 'IDX')
                 s = _re.sub(r'[#@]\d+', '#', s)
@@ -222,7 +251,7 @@ def r3_is_endgame(ctx):
 def r4_magnitude(ctx):
     rule = 'C18.R4-magnitude'
     f = ctx.facts.consts
-    mv = arr(f.get(ET + 'MATERIAL_VALUES'))
+    mv = material_source(ctx)[2]
     bt = f.get(ET + 'BONUS_TABLES')
     ww, bw = f.get(EV + 'WHITE_WINS'), f.get(EV + 'BLACK_WINS')
     if mv is None or bt is None or ww is None or bw is None:
